@@ -7,7 +7,7 @@
 (***************************************************************************)
 EXTENDS Printer, TLC, Json, FiniteSets
 
-CONSTANTS Slice, EmitOn
+CONSTANTS Slice, EmitOn, Routes
 VARIABLES c, lvl
 vars == <<c, lvl>>
 
@@ -270,6 +270,21 @@ Init == lvl = 0 /\ c = NoCase /\ root \in Roots
 Next == lvl = 0 /\ lvl' = 1 /\ root' = root /\ c' \in Expand(root)
 Spec == Init /\ [][Next]_allvars
 
+\* the same argument list through the other three routes of C16
+RouteOp(k)  == IF k.e = "Sprint" THEN SPrint(k.ts) ELSE SPrintf(k.f, k.ts)
+RouteSB(k)  == SBRun(<<RouteOp(k)>>)                                              \* StringBuilder.Print / Printf
+RouteFn(k)  == Sprintfn(<<RouteOp(k)>>)                                           \* SafePrinter inside Sprintfn
+RouteSF(k)  == Sprint(<<TObj(990, {"SF"}, <<RouteOp(k)>>, <<>>, <<>>, <<>>)>>)    \* SafePrinter inside a SafeFormat method
+C16Holds(k, r) ==
+  (k.e \in {"Sprint", "Sprintf"}) =>
+    LET sb == RouteSB(k)  fn == RouteFn(k)  sf == RouteSF(k) IN
+    \* (an argument list whose printing panics out of Sprint is outside: inside a SafeFormat method the
+    \*  same panic meets one more catchPanic and is reported instead of propagating)
+    ~Exc(r) => /\ ~Exc(sb) /\ ~Exc(fn) /\ ~Exc(sf)
+                  /\ NormOf(Out(sb)) = NormOf(Out(r))
+                  /\ NormOf(Out(fn)) = NormOf(Out(r))
+                  /\ NormOf(Out(sf)) = NormOf(Out(r))
+
 Run(k) == CASE k.e = "Sprintf"  -> Sprintf(k.f, k.ts)
             [] k.e = "Sprint"   -> Sprint(k.ts)
             [] k.e = "Errorf"   -> Errorf(k.f, k.ts)
@@ -389,6 +404,7 @@ Check == lvl = 1 =>
   /\ Holds("C11", (Slice = "panic") => C11Holds(c, r))
   /\ Holds("C15", (ok /\ Slice \in {"errorf", "qerrorf"}) => C15Holds(c, r))
   /\ Holds("C17", (ok /\ Slice = "hook") => C17Holds(c, r))
+  /\ Holds("C16", Routes => C16Holds(c, r))
   /\ (EmitOn => PrintT(ToJson([c |-> c, exc |-> ~ok, out |-> IF ok THEN Out(r) ELSE <<>>, rt |-> r.rt,
                                 calls |-> r.calls, werr |-> r.wrappedErr])))
 =============================================================================
